@@ -224,13 +224,14 @@ def sweep (p : Bytes) : Nat → Nat → List (Nat × Insn)
 
 /-- the code buffer is: prologue, then for every instruction start `pc` the arm's instructions at `pcLocs[pc]`
     ending where the next arm (or the epilogue) begins, then the epilogue up to the end of the buffer; jumps land
-    on arms of instruction starts only -/
+    on arms of instruction starts only; every recorded location lies inside the buffer -/
 def validate (p : Bytes) (helperAddr : Nat → Option Nat) (useMbuff updateDataPtr : Bool) (code : Array UInt8) (L : Layout) : Bool :=
   let starts := sweep p (p.size / 8 + 1) 0
   let locOf (k : Nat) : Option Nat := if k * 8 < p.size then L.pcLocs[k]? else some L.exitLoc
   let tgt : Tgt → Option Nat
     | .exit => some L.exitLoc
     | .pc t => if 0 ≤ t ∧ starts.any (fun (k, _) => (k : Int) == t) then L.pcLocs[t.toNat]? else none
+  L.pcLocs.all (· ≤ code.size) && L.exitLoc ≤ code.size &&
   checkSeq code tgt 0 (prologue useMbuff updateDataPtr) == locOf 0 &&
   starts.all (fun (pc, i) =>
     match arm helperAddr pc i (getInsn? p (pc + 1)), L.pcLocs[pc]? with
